@@ -176,7 +176,19 @@ def convert(tb, hook_events, sid, cfg, kind, stats, mon=True):
                 out.append({"e": "give", "id": ev["id"], "root": root})
             elif e == "check":
                 flush_frame()
-                out.append({"e": "check", "ret": ev["ret"]})
+                c = {"e": "check", "ret": ev["ret"], "all": [], "h": [], "mon": False}
+                if mon and ev["ret"] == "unsat" and not ev.get("early"):
+                    # equisatisfiability, the other direction: the engine refuted what it was given although the
+                    # assertions of the active frames (as the user wrote them) have a model
+                    lvl = ev.get("level", max(idx2id) if idx2id else 0)
+                    act = [t for j in sorted(idx2id) if j <= lvl for t in inserted.get(idx2id[j], []) if t is not None]
+                    complete = all(len(inserted.get(idx2id[j], [])) > 0 or True for j in idx2id)
+                    if act and complete and tb.max_abs(act) <= C.MAXNUM and len(act) <= 14:
+                        m = get_hints().model_for(act, {})
+                        if m is not None and C.model_small(tb, m):
+                            c.update({"all": act, "h": [m], "mon": True})
+                            stats["c13_unsat_candidates"] = stats.get("c13_unsat_candidates", 0) + 1
+                out.append(c)
         except SmtError as ex:
             stats["unreadable_terms"] = stats.get("unreadable_terms", 0) + 1
             stats.setdefault("unreadable_samples", []).append(str(ex)[:200])
